@@ -106,6 +106,52 @@ def scratch_dir(tag='kv'):
     return tempfile.mkdtemp(prefix='%s_' % tag, dir=base)
 
 
+def other_fs_root():
+    """a writable directory on another file system than the system temp directory (None when the machine has none): archives
+    are not always next to /tmp, and a write protocol that stages its file in the temp directory cannot rename across devices"""
+    if os.environ.get('VERIF_SCRATCH'): return None
+    try: dev = os.stat(tempfile.gettempdir()).st_dev
+    except OSError: return None
+    for c in ('/dev/shm', '/run/shm', '/var/tmp', os.path.expanduser('~')):
+        try:
+            if os.path.isdir(c) and os.access(c, os.W_OK) and os.stat(c).st_dev != dev: return c
+        except OSError: pass
+    return None
+
+
+def scratch_dir_for(tag, key):
+    """scratch directory of a case: every other case (by a hash of `key`) lives on another file system than the temp directory"""
+    import hashlib
+    h = int(hashlib.sha256(repr(key).encode()).hexdigest(), 16)
+    root = other_fs_root() if h % 2 else None
+    if root: return tempfile.mkdtemp(prefix='%s_' % tag, dir=root)
+    return scratch_dir(tag)
+
+
+class fd_budget:
+    """context: the process may open only `margin` more file descriptors than it holds now (a long-lived process is one whose
+    descriptor table is nearly full); an operation that leaks one descriptor per call runs out within `margin` calls, one that
+    closes what it opens never notices.  Applied to every fourth case (by a hash of `key`)."""
+    def __init__(self, key, margin=24):
+        import hashlib
+        self.on = int(hashlib.sha256(('fd' + repr(key)).encode()).hexdigest(), 16) % 4 == 0
+        self.margin = margin; self.old = None
+    def __enter__(self):
+        if not self.on: return self
+        try:
+            import resource
+            top = max(int(x) for x in os.listdir('/proc/self/fd'))
+            self.old = resource.getrlimit(resource.RLIMIT_NOFILE)
+            resource.setrlimit(resource.RLIMIT_NOFILE, (min(self.old[0], top + 1 + self.margin), self.old[1]))
+        except Exception: self.old = None
+        return self
+    def __exit__(self, *a):
+        if self.old is not None:
+            import resource
+            resource.setrlimit(resource.RLIMIT_NOFILE, self.old)
+        return False
+
+
 def rm_rf(path):
     shutil.rmtree(path, ignore_errors=True)
 
